@@ -31,7 +31,8 @@ type SliceV struct {
 }
 
 type MapEntry struct {
-	K, V Value
+	K, V    Value
+	Present *Term // nil: present; otherwise present iff this condition holds (optional entry of a havoc'd map)
 }
 type MapV struct {
 	ID      int
